@@ -285,6 +285,10 @@ def run(ctx, rec):
             mpairs.append((d + Decimal("1E-21"), same))
             mpairs.append((d, same + Decimal("1E-21")))
             mpairs.append((d - Decimal("4E-21"), same))
+        # ... and mantissas far below one unit of a LARGE prefix: thousands apart in value, 1e-21 apart as written
+        for tiny in ("4E-21", "5E-20", "1E-19", "-3E-20"):
+            mpairs.append((Decimal(tiny), Decimal("0")))
+            mpairs.append((Decimal("1") + Decimal(tiny), Decimal("1").scaleb(shift)))
         # (ii) fixed adversarial mantissas
         pool = [(x, y) for x in fixed for y in fixed]
         mpairs += rng.sample(pool, per_pair)
